@@ -1,4 +1,5 @@
 import RedisGoModel.Props.C16CrashAux
+import RedisGoModel.Props.C16RepairG
 import RedisGoModel.Props.C16
 /-! # C16 — the property's sentence at the entry level, after a crash (partial)
 
@@ -17,8 +18,11 @@ import RedisGoModel.Props.C16
     * `GNoCollision` on the unsynced items (a 32-bit CRC cannot exclude that a multi-sector record with some sectors
       zeroed still validates); sectors revert to zeros, not to older non-zero content;
     * the unsynced tail lies within one segment file and leaves room for a length field (`hroom`);
-    * read mode only: for `Open` (write mode) the torn verdict must first be repaired — `WalTornC.repair_torn_tail_partial`
-      proves that step for a file read alone with non-nil records; its composition with the chain is not done here. -/
+    * `crash_readAll_prefix_partial` is the read-mode statement (what a restarting node and `Verify` see);
+      `crash_repair_readAll_prefix_partial` is the write-mode one: `Repair` (WalTornC.repair_torn_tail_gpartial) succeeds
+      and `Open` + `ReadAll` on the repaired directory reaches a clean EOF with the same result and no error. Not covered:
+      the write-mode `ZeroToEnd` that follows, and what later appends do to the region the interrupted write touched
+      (the aftermath probe of the wal engine explores that on the real code). -/
 namespace WalFile
 open WalCodec
 
@@ -157,22 +161,23 @@ theorem crash_finish (start : Nat × Nat) (md : Option Bytes) (hs hu : List Call
     refine ⟨rfl, rfl, rfl, herr _ ?_, hRpre, hRex⟩
     simp only [readAllFin, Bool.false_or, Bool.not_false, Bool.true_and, decide_true, if_true, Bool.or_false]
 
-theorem crash_readAll_prefix_partial (segSize : Nat) (md : Option Bytes) (hmd : (md.getD []).length < 2 ^ 55)
-    (hs hu : List Call) (hfit : ∀ c ∈ hs ++ hu, c.Fits) (hok : SaveOk (hs ++ hu))
+/-- what the hypotheses of the crash theorems give: a ghost `gs` of the synced writer (closed segments, the items `gs.cur`
+    of the last one), the dispatch over its items, and the torn-tail hypotheses in the form C16TornG.lean wants -/
+theorem crash_setup (segSize : Nat) (md : Option Bytes) (hmd : (md.getD []).length < 2 ^ 55)
+    (hs hu : List Call) (hfit : ∀ c ∈ hs ++ hu, c.Fits)
     (hnocut : noCut (syncedWriter segSize md hs) hu = true) (f : Bytes)
     (hcr : Crash (fileFn (tailWriter segSize md hs hu).tail) (fileFn f) (syncedWriter segSize md hs).tail.length)
     (hroom : (tailWriter segSize md hs hu).tail.length + 8 ≤ f.length)
     (hcoll : GNoCollision (syncedWriter segSize md hs).tail.length (syncedWriter segSize md hs).crc (callsItems hu))
-    (start : Nat × Nat) (hnm : ¬ Mismatch start (hs ++ hu)) :
-    ∃ hu', CallPrefix hu' hu ∧ SaveOk (hs ++ hu') ∧ ¬ Mismatch start (hs ++ hu') ∧
-      ∃ R, placeCalls start.1 [] (hs ++ hu') = some R ∧
-        (readAll false start ((syncedWriter segSize md hs).closed.map (·.2) ++ [f])).metadata = md ∧
-        (readAll false start ((syncedWriter segSize md hs).closed.map (·.2) ++ [f])).state = refState (hs ++ hu') ∧
-        (readAll false start ((syncedWriter segSize md hs).closed.map (·.2) ++ [f])).ents = R ∧
-        (readAll false start ((syncedWriter segSize md hs).closed.map (·.2) ++ [f])).err =
-          (if start ∈ savedSnaps (hs ++ hu') then none else some .snapNotFound) ∧
-        R.take ((refLog (hs ++ hu')).length - start.1) = (refLog (hs ++ hu')).filter (fun e => e.index > start.1) ∧
-        (NoStale start.1 (hs ++ hu') → R = (refLog (hs ++ hu')).filter (fun e => e.index > start.1)) := by
+    (start : Nat × Nat) :
+    ∃ gs : GGhost,
+      applyItems start {} gs.all = specCalls start { metadata := md } (.snap ⟨0, 0, none⟩ :: hs) ∧
+      (∀ s ∈ gnoTail gs.closed, (∀ it ∈ s.1, GItemOk it) ∧ EndOfWritten s.2) ∧
+      (∀ f' : Bytes, (syncedWriter segSize md hs).closed.map (·.2) ++ [f'] = gchainFiles 0 (gnoTail gs.closed) ++ [f']) ∧
+      gs.crc0 < 2 ^ 32 ∧ GItemsOk gs.cur ∧ GItemsOk (callsItems hu) ∧
+      Crash (gimage gs.crc0 (gs.cur ++ callsItems hu)) (fileFn f) (endOff (gfileFrames gs.crc0 gs.cur) 0) ∧
+      GNoCollision (endOff (gfileFrames gs.crc0 gs.cur) 0) (gCrcAfter gs.crc0 gs.cur) (callsItems hu) ∧
+      endOff (gfileFrames gs.crc0 (gs.cur ++ callsItems hu)) 0 + 8 ≤ f.length := by
   have hfs : ∀ c ∈ hs, c.Fits := fun c hc => hfit c (by simp [hc])
   have hfu : ∀ c ∈ hu, c.Fits := fun c hc => hfit c (by simp [hc])
   -- the synced writer
@@ -220,7 +225,6 @@ theorem crash_readAll_prefix_partial (segSize : Nat) (md : Option Bytes) (hmd : 
     rw [endOff_gfileFrames, ← htails, ← hcrcs]; exact hcoll
   have hsize' : endOff (gfileFrames gs.crc0 (gs.cur ++ callsItems hu)) 0 + 8 ≤ f.length := by
     rw [endOff_gfileFrames, ← htailu]; exact hroom
-  -- fuel
   have hclosedok : ∀ s ∈ gnoTail gs.closed, (∀ it ∈ s.1, GItemOk it) ∧ EndOfWritten s.2 := by
     intro s hs'
     simp only [gnoTail, List.mem_map] at hs'
@@ -228,33 +232,89 @@ theorem crash_readAll_prefix_partial (segSize : Nat) (md : Option Bytes) (hmd : 
     refine ⟨fun it hit => hIs.ok it ?_, Or.inl rfl⟩
     simp only [GGhost.all, List.mem_flatten]
     exact ⟨items, by simp [hmem], hit⟩
-  have hfilesEq : ws.closed.map (·.2) ++ [f] = gchainFiles 0 (gnoTail gs.closed) ++ [f] := by rw [hIs.closed]
-  have hfuel : ∃ n, readFuel (gchainFiles 0 (gnoTail gs.closed) ++ [f]) = closedFuel (gnoTail gs.closed) + (n + 1) ∧
-      gs.cur.length + (callsItems hu).length + 1 < n + 1 := by
-    obtain ⟨g1, g2⟩ := gchain_len (gnoTail gs.closed) 0
-    have hcf := closedFuel_succ (gnoTail gs.closed)
-    have hl1 := gEncodeAll_len_ge gs.crc0 (gs.cur ++ callsItems hu)
-    have hl2 := encodeFrame_length (crcRec gs.crc0)
-    have hlu : wu.tail.length = (encodeFrame (crcRec gs.crc0)).length + (gEncodeAll gs.crc0 (gs.cur ++ callsItems hu)).length := by
-      rw [htailu, List.length_append]
-    rw [List.length_append] at hl1
-    refine ⟨readFuel (gchainFiles 0 (gnoTail gs.closed) ++ [f]) - closedFuel (gnoTail gs.closed) - 1, ?_⟩
-    unfold readFuel
-    rw [totalLen_append_one, List.length_append, List.length_cons, List.length_nil]
-    rw [← hcf] at g1
-    simp only [Nat.add_sub_cancel] at g1
-    omega
-  obtain ⟨n, hn1, hn2⟩ := hfuel
+  exact ⟨gs, hsem, hclosedok, fun f' => by rw [hIs.closed], hc0, hSok, hUok, hcr', hnc', hsize'⟩
+
+/-- `readAll`'s own fuel is enough for the closed files and a last file at least as long as the frames of `items` -/
+theorem fuel_for (closed : List (List GItem × Bytes)) (c0 : Nat) (items : List GItem) (f : Bytes)
+    (h : endOff (gfileFrames c0 items) 0 ≤ f.length) :
+    ∃ n, readFuel (gchainFiles 0 closed ++ [f]) = closedFuel closed + (n + 1) ∧ items.length + 1 < n + 1 := by
+  obtain ⟨g1, g2⟩ := gchain_len closed 0
+  have hcf := closedFuel_succ closed
+  have hl1 := gEncodeAll_len_ge c0 items
+  have hl2 := encodeFrame_length (crcRec c0)
+  have hl3 := marshal_pos (crcRec c0)
+  rw [endOff_gfileFrames, List.length_append] at h
+  refine ⟨readFuel (gchainFiles 0 closed ++ [f]) - closedFuel closed - 1, ?_⟩
+  unfold readFuel
+  rw [totalLen_append_one, List.length_append, List.length_cons, List.length_nil]
+  rw [← hcf] at g1
+  simp only [Nat.add_sub_cancel] at g1
+  omega
+
+theorem crash_readAll_prefix_partial (segSize : Nat) (md : Option Bytes) (hmd : (md.getD []).length < 2 ^ 55)
+    (hs hu : List Call) (hfit : ∀ c ∈ hs ++ hu, c.Fits) (hok : SaveOk (hs ++ hu))
+    (hnocut : noCut (syncedWriter segSize md hs) hu = true) (f : Bytes)
+    (hcr : Crash (fileFn (tailWriter segSize md hs hu).tail) (fileFn f) (syncedWriter segSize md hs).tail.length)
+    (hroom : (tailWriter segSize md hs hu).tail.length + 8 ≤ f.length)
+    (hcoll : GNoCollision (syncedWriter segSize md hs).tail.length (syncedWriter segSize md hs).crc (callsItems hu))
+    (start : Nat × Nat) (hnm : ¬ Mismatch start (hs ++ hu)) :
+    ∃ hu', CallPrefix hu' hu ∧ SaveOk (hs ++ hu') ∧ ¬ Mismatch start (hs ++ hu') ∧
+      ∃ R, placeCalls start.1 [] (hs ++ hu') = some R ∧
+        (readAll false start ((syncedWriter segSize md hs).closed.map (·.2) ++ [f])).metadata = md ∧
+        (readAll false start ((syncedWriter segSize md hs).closed.map (·.2) ++ [f])).state = refState (hs ++ hu') ∧
+        (readAll false start ((syncedWriter segSize md hs).closed.map (·.2) ++ [f])).ents = R ∧
+        (readAll false start ((syncedWriter segSize md hs).closed.map (·.2) ++ [f])).err =
+          (if start ∈ savedSnaps (hs ++ hu') then none else some .snapNotFound) ∧
+        R.take ((refLog (hs ++ hu')).length - start.1) = (refLog (hs ++ hu')).filter (fun e => e.index > start.1) ∧
+        (NoStale start.1 (hs ++ hu') → R = (refLog (hs ++ hu')).filter (fun e => e.index > start.1)) := by
+  have hfu : ∀ c ∈ hu, c.Fits := fun c hc => hfit c (by simp [hc])
+  obtain ⟨gs, hsem, hclosedok, hfilesEq, hc0, hSok, hUok, hcr', hnc', hsize'⟩ :=
+    crash_setup segSize md hmd hs hu hfit hnocut f hcr hroom hcoll start
+  obtain ⟨n, hn1, hn2⟩ := fuel_for (gnoTail gs.closed) gs.crc0 (gs.cur ++ callsItems hu) f (by omega)
+  rw [List.length_append] at hn2
   obtain ⟨p, rest, hU, hrec, hfin, _⟩ := torn_tail_gfile_partial gs.crc0 gs.crc0 hc0 (Or.inr rfl) gs.cur (callsItems hu) hSok hUok f
-    hcr' hnc' hsize' (n + 1) hn2
+    hcr' hnc' hsize' (n + 1) (by omega)
   obtain ⟨hu', q1, q2, q3, R, q4, q5, q6, q7, q8, q9, q10⟩ := crash_finish start md hs hu hfu hok hnm gs hsem hclosedok f n false hn1
     p rest hU hrec (by rcases hfin with h | h; exact Or.inl h; exact Or.inr ⟨rfl, h⟩)
-  rw [hfilesEq]
+  rw [hfilesEq f]
   refine ⟨hu', q1, q2, q3, R, q4, q5, q6, q7, ?_, q9, q10⟩
   rw [q8]
   by_cases hin : start ∈ savedSnaps (hs ++ hu')
   · rw [if_pos (Or.inl hin), if_pos hin]
   · rw [if_neg (by simp [hin]), if_neg hin]
+
+/-- **after `Repair`, in write mode** (partial, same hypotheses). `wal.Repair` on the directory found after the crash
+    succeeds; `wal.Open` + `ReadAll` on the repaired directory then reaches a clean EOF and returns — with no error: a
+    missing snapshot is not reported in write mode — what `ReadAll` returns on the fully written history `hs ++ hu'`,
+    `hu'` being `hu` cut short at a record boundary. -/
+theorem crash_repair_readAll_prefix_partial (segSize : Nat) (md : Option Bytes) (hmd : (md.getD []).length < 2 ^ 55)
+    (hs hu : List Call) (hfit : ∀ c ∈ hs ++ hu, c.Fits) (hok : SaveOk (hs ++ hu))
+    (hnocut : noCut (syncedWriter segSize md hs) hu = true) (f : Bytes)
+    (hcr : Crash (fileFn (tailWriter segSize md hs hu).tail) (fileFn f) (syncedWriter segSize md hs).tail.length)
+    (hroom : (tailWriter segSize md hs hu).tail.length + 8 ≤ f.length)
+    (hcoll : GNoCollision (syncedWriter segSize md hs).tail.length (syncedWriter segSize md hs).crc (callsItems hu))
+    (start : Nat × Nat) (hnm : ¬ Mismatch start (hs ++ hu)) :
+    (repair f).1 = true ∧
+    ∃ hu', CallPrefix hu' hu ∧ SaveOk (hs ++ hu') ∧ ¬ Mismatch start (hs ++ hu') ∧
+      ∃ R, placeCalls start.1 [] (hs ++ hu') = some R ∧
+        (readAll true start ((syncedWriter segSize md hs).closed.map (·.2) ++ [(repair f).2])).metadata = md ∧
+        (readAll true start ((syncedWriter segSize md hs).closed.map (·.2) ++ [(repair f).2])).state = refState (hs ++ hu') ∧
+        (readAll true start ((syncedWriter segSize md hs).closed.map (·.2) ++ [(repair f).2])).ents = R ∧
+        (readAll true start ((syncedWriter segSize md hs).closed.map (·.2) ++ [(repair f).2])).err = none ∧
+        R.take ((refLog (hs ++ hu')).length - start.1) = (refLog (hs ++ hu')).filter (fun e => e.index > start.1) ∧
+        (NoStale start.1 (hs ++ hu') → R = (refLog (hs ++ hu')).filter (fun e => e.index > start.1)) := by
+  have hfu : ∀ c ∈ hu, c.Fits := fun c hc => hfit c (by simp [hc])
+  obtain ⟨gs, hsem, hclosedok, hfilesEq, hc0, hSok, hUok, hcr', hnc', hsize'⟩ :=
+    crash_setup segSize md hmd hs hu hfit hnocut f hcr hroom hcoll start
+  obtain ⟨p, rest, hU, hrep, hlen, hread⟩ := repair_torn_tail_gpartial gs.crc0 hc0 gs.cur (callsItems hu) hSok hUok f hcr' hnc' hsize'
+  obtain ⟨n, hn1, hn2⟩ := fuel_for (gnoTail gs.closed) gs.crc0 (gs.cur ++ p) (repair f).2 hlen
+  rw [List.length_append] at hn2
+  obtain ⟨hrec, hfin⟩ := hread gs.crc0 (Or.inr rfl) (n + 1) (by omega)
+  obtain ⟨hu', q1, q2, q3, R, q4, q5, q6, q7, q8, q9, q10⟩ := crash_finish start md hs hu hfu hok hnm gs hsem hclosedok (repair f).2 n true hn1
+    p rest hU hrec (Or.inl hfin)
+  rw [hfilesEq (repair f).2]
+  refine ⟨hrep, hu', q1, q2, q3, R, q4, q5, q6, q7, ?_, q9, q10⟩
+  rw [q8, if_pos (Or.inr rfl)]
 
 /-! ### non-vacuity: a concrete crash that loses the unsynced entry -/
 
@@ -323,10 +383,34 @@ example : ∃ hu', CallPrefix hu' exHu ∧ SaveOk (exHs ++ hu') ∧ ¬ Mismatch 
     (show SaveOk (exHs ++ exHu) by decide) (by decide +kernel) exF ex_crash_dir (by decide +kernel) ex_gnoCollision (0, 0)
     (show ¬ Mismatch (0, 0) (exHs ++ exHu) by decide)
 
+/-- **non-vacuity** of `crash_repair_readAll_prefix_partial`, same directory: `Repair` succeeds (here it has nothing to cut:
+    the header of the lost record is zero) and the log opens for writing -/
+example : (repair exF).1 = true ∧
+    ∃ hu', CallPrefix hu' exHu ∧ SaveOk (exHs ++ hu') ∧ ¬ Mismatch (0, 0) (exHs ++ hu') ∧
+    ∃ R, placeCalls 0 [] (exHs ++ hu') = some R ∧
+      (readAll true (0, 0) ((syncedWriter 4096 none exHs).closed.map (·.2) ++ [(repair exF).2])).metadata = none ∧
+      (readAll true (0, 0) ((syncedWriter 4096 none exHs).closed.map (·.2) ++ [(repair exF).2])).state = refState (exHs ++ hu') ∧
+      (readAll true (0, 0) ((syncedWriter 4096 none exHs).closed.map (·.2) ++ [(repair exF).2])).ents = R ∧
+      (readAll true (0, 0) ((syncedWriter 4096 none exHs).closed.map (·.2) ++ [(repair exF).2])).err = none ∧
+      R.take ((refLog (exHs ++ hu')).length - 0) = (refLog (exHs ++ hu')).filter (fun e => e.index > 0) ∧
+      (NoStale 0 (exHs ++ hu') → R = (refLog (exHs ++ hu')).filter (fun e => e.index > 0)) :=
+  crash_repair_readAll_prefix_partial 4096 none (by decide) exHs exHu
+    (by
+      intro c hc
+      simp only [exHs, exHu, List.cons_append, List.nil_append, List.mem_cons, List.not_mem_nil, or_false] at hc
+      rcases hc with rfl | rfl
+      · exact ⟨⟨by decide, by decide, by decide⟩, fun e he => by
+          simp only [List.mem_singleton] at he; subst he; exact en_fits _ _ (by decide) (by decide)⟩
+      · exact ⟨⟨by decide, by decide, by decide⟩, fun e he => by
+          simp only [List.mem_singleton] at he; subst he; exact en_fits _ _ (by decide) (by decide)⟩)
+    (show SaveOk (exHs ++ exHu) by decide) (by decide +kernel) exF ex_crash_dir (by decide +kernel) ex_gnoCollision (0, 0)
+    (show ¬ Mismatch (0, 0) (exHs ++ exHu) by decide)
+
 /-- … and evaluated directly: the synced entry 1 is there, the unsynced entry 2 is gone, no error -/
 example : (readAll false (0, 0) ((syncedWriter 4096 none exHs).closed.map (·.2) ++ [exF])).ents = [en 1 1] ∧
     (readAll false (0, 0) ((syncedWriter 4096 none exHs).closed.map (·.2) ++ [exF])).state = ⟨1, 1, 0⟩ ∧
     (readAll false (0, 0) ((syncedWriter 4096 none exHs).closed.map (·.2) ++ [exF])).err = none := by decide +kernel
 
 #print axioms crash_readAll_prefix_partial
+#print axioms crash_repair_readAll_prefix_partial
 end C16
